@@ -14,7 +14,7 @@ func init() {
 }
 
 func rulesC19(c *Ctx, r *Report) {
-	r.explain("Decides: (PURE) PreOrder, PostOrder and traverse never write the tree (nodes, Children slices) — directly or through callees such as sorting/reversing helpers; (ACYCLIC) no function reachable from PreOrder/PostOrder is on a call-graph cycle — the traversal does not recurse, so depth is bounded by the heap, not the stack; (STALE-ELEM) no pointer into an element of the explicit stack is used after an append to that stack (which may reallocate and leave the pointer in the old array); (REENTRANT) the iterator body assigns to no captured variable, so the same iterator value can run twice (nested or via iter.Pull) without sharing a stack; (YD1) no callback after a false result; (STEP) the explicit-stack step: a node is yielded in pre-order exactly when its child index is 0 and in post-order exactly when its child index equals len(Children), the child pushed is Children[i] of the same node, and i advances by one per push. Not decided: that these steps compose to the classic recursive order (exactly once, parents before/after descendants) as an equality of sequences.")
+	r.explain("Decides: (PURE) PreOrder, PostOrder and traverse never write the tree (nodes, Children slices) — directly or through callees such as sorting/reversing helpers; (ACYCLIC) no function reachable from PreOrder/PostOrder is on a call-graph cycle — the traversal does not recurse, so depth is bounded by the heap, not the stack; (STALE-ELEM) no pointer into an element of the explicit stack is used after an append to that stack (which may reallocate and leave the pointer in the old array); (REENTRANT) the iterator body assigns to no captured variable, so the same iterator value can run twice (nested or via iter.Pull) without sharing a stack; (YD1) no callback after a false result; (STEP) the explicit-stack step: a node is yielded in pre-order exactly when its child index is 0 and in post-order exactly when its child index equals len(Children), the child pushed is Children[i] of the same node, and i advances by one per push. Not decided: that these steps compose to the classic recursive order (exactly once, parents before/after descendants) as an equality of sequences. STEP additionally: child index as wide as a slice length; no explicit panic in the step function.")
 	e := effFor(c)
 	var roots []*ssa.Function
 	for _, name := range []string{"(*Node).PreOrder", "(*Node).PostOrder", "role:newick.traverse"} {
